@@ -15,7 +15,7 @@ SHAPES = [  # (K, T, N, Al); Vec<Vec<u8>> growth limits CBMC to two symbols when
     # Al > 1 shapes include N not dividing T/Al (unequal sub-symbols measured in alignment units, not bytes)
     (2, 4, 2, 1), (2, 6, 2, 2), (2, 5, 2, 1), (2, 8, 3, 1), (3, 6, 1, 1), (2, 12, 2, 4), (2, 6, 3, 2),
 ]
-SHAPES_THOROUGH = [(2, 7, 3, 1), (2, 12, 5, 2), (2, 9, 4, 1), (2, 16, 3, 4), (2, 3, 3, 1), (2, 10, 4, 1), (3, 4, 2, 1)]
+SHAPES_THOROUGH = [(2, 7, 3, 1), (2, 12, 5, 2), (2, 9, 4, 1), (2, 16, 3, 4), (2, 3, 3, 1), (2, 10, 4, 1)]
 TZ = [(1, 1), (3, 2), (8, 3), (5, 4)]
 TZ_THOROUGH = [(2, 2), (4, 4), (7, 3), (6, 1), (1, 4)]
 
